@@ -522,6 +522,37 @@ def regex_families(si, pi, k1, k2):
     return native(run)
 
 
+PER_ROW_DECIMALS = [decimal.Decimal(x) for x in ('1.0', '1.00', '1', '0', '-0', '0.00', '2.50', '2.5')]
+PER_ROW_OBJECTS = [1, True, decimal.Decimal('1.00'), 0, False, '', 'a']
+
+
+@cond('C01.func.per-row', quick=120,
+      bounds=f'3 rows whose cells are pairwise equal under == but distinguishable (decimals {[str(x) for x in PER_ROW_DECIMALS]}; '
+             'untyped cells 1 / TRUE / 1.00 / 0 / FALSE); SELECT str(d), abs(d), neg(d), d + 0 and str(o), bool(o): every cell is computed '
+             'from its own row (a value is never taken over from an earlier row with an equal argument)',
+      symbolic='(none)', enumerated='cells', params={'i0': int, 'i1': int, 'i2': int, 'obj': bool})
+def func_per_row(i0, i1, i2, obj):
+    obj = bool(obj)
+    palette = PER_ROW_OBJECTS if obj else PER_ROW_DECIMALS
+    cells = [pick(palette, i) for i in (i0, i1, i2)]
+
+    def run():
+        import beanquery.query_env  # noqa: F401
+        if obj:
+            text, dtype = 'SELECT str(o) AS s, bool(o) AS b FROM #t', object
+            bql_str = lambda v: 'TRUE' if v is True else ('FALSE' if v is False else str(v))    # noqa: E731
+            want = [(bql_str(v), bool(v)) for v in cells]
+        else:
+            text, dtype = 'SELECT str(o) AS s, abs(o) AS a, neg(o) AS n, o + 0 AS z FROM #t', decimal.Decimal
+            want = [(str(v), abs(v), -v, v + 0) for v in cells]
+        got = connect(t=HTable('t', [('o', dtype)], [(v,) for v in cells])).execute(parse(text)).fetchall()
+        # compared by text: 1.0 and 1.00 are equal but not the same value
+        if [tuple(repr(x) for x in row) for row in got] != [tuple(repr(x) for x in row) for row in want]:
+            return 'cell-not-computed-from-its-own-row'
+        return 'ok'
+    return native(run)
+
+
 class _UTable(HTable):
     def update(self, **kwargs):
         return self
